@@ -125,7 +125,16 @@ def same_but_time(g, w):
 def judge_iter(ctx, mid, case, clause='cumulative seconds == tempo-map integral'):
     model = model_seconds(mid)
     try:
-        got = list(mid)
+        got = []
+        for m in mid:
+            got.append(m.copy())
+            # "you can safely modify them": the consumer edits what it was handed
+            try:
+                if m.type == 'set_tempo':
+                    m.tempo = 12345
+                m.time = 777.0
+            except Exception:
+                pass                      # a frozen message
     except Exception as exc:
         ctx.fail(clause, f'iter-raised:{type(exc).__name__}', case, f'{type(exc).__name__}: {exc}')
         return None, model
@@ -183,9 +192,10 @@ def judge_play(ctx, mid, model, pattern, oversleep, meta_messages, seed):
     orig = mf.time
     mf.time = clock
     try:
-        start = clock.now
         gen = mid.play(meta_messages=meta_messages, now=clock.time)
-        # the generator reads the start time at its first resumption
+        # the player may be created long before it is started: playback begins at the first next()
+        clock.now += rng.choice((0.0, 0.0, 3.0, 1000.0))
+        start = clock.now
         want = [(w, c) for w, c in model if meta_messages or not w.is_meta]
         idx = 0
         resumed = clock.now
@@ -215,6 +225,11 @@ def judge_play(ctx, mid, model, pattern, oversleep, meta_messages, seed):
                           'drift', case, lambda: {'index': idx, 'yielded_at': y - start, 'scheduled': sched,
                                                   'resumed_at': resumed - start})
             idx += 1
+            if msg.type == 'set_tempo':
+                try:
+                    msg.tempo = 54321          # the consumer's copy, not the file's tempo map
+                except Exception:
+                    pass
             clock.now += consumer_delay(pattern, idx, rng, typical)
         ctx.check('play yields the iterated messages (meta on request)', idx == len(want),
                   'play-missing-messages', case, {'got': idx, 'want': len(want)})
